@@ -355,7 +355,9 @@ func (m *Mux) serveHTTP(w http.ResponseWriter, r *http.Request) error {
 	if err != nil {
 		return err
 	}
-	params = append(params, queryParams...)
+	// Path captures are applied last: a query parameter naming a
+	// path-bound field must not replace the value from the path.
+	params = append(queryParams, params...)
 
 	hd, err := s.pickMethodHandler(method.name)
 	if err != nil {
